@@ -294,6 +294,7 @@ def check_programs(ctx, n, keyword_names):
             if k in (40, 110):
                 ws_check(ctx, srv, conn, coq, model=True)      # model comparison while the literal stays small
                 ws_rename_check(ctx, srv, conn, root)
+                check_directed_outlines(ctx, srv, conn, root)
         ws_check(ctx, srv, conn, coq, model=False)
     finally:
         shutil.rmtree(root, ignore_errors=True)
@@ -303,6 +304,36 @@ def check_programs(ctx, n, keyword_names):
         ctx.report("C04:model-impl-mismatch", "scope objects / documentSymbol differ from C04.Model (recss, doc_symbols) on a generated tree",
                    {"kind": "broken-correspondence", "input": meta[b], "correspondence": "FV.C04.Model.recss / doc_symbols vs FortranFile.parse / serve_document_symbols"},
                    found_input=False)
+
+
+DIRECTED_OUTLINES = [
+    # (text, expected (name, kind, first line, last line, container)) -- shapes the random generator reaches only now and then
+    ("module shapes\n implicit none\n type :: circle\n  real :: r\n end type circle\n interface circle\n  module procedure new_circle\n end interface circle\ncontains\n"
+     " function new_circle(r) result(c)\n  real :: r\n  type(circle) :: c\n end function new_circle\nend module shapes\n",
+     [("shapes", 2, 0, 13, None), ("circle", 5, 2, 4, "shapes"), ("circle", 11, 5, 7, "shapes"), ("new_circle", 12, 9, 12, "shapes")]),
+    ("module shapes2\n implicit none\n interface square\n  module procedure new_square\n end interface square\n type :: square\n  real :: a\n end type square\ncontains\n"
+     " function new_square(a) result(c)\n  real :: a\n  type(square) :: c\n end function new_square\nend module shapes2\n",
+     [("shapes2", 2, 0, 13, None), ("square", 11, 2, 4, "shapes2"), ("square", 5, 5, 7, "shapes2"), ("new_square", 12, 9, 12, "shapes2")]),
+    ("subroutine twice()\nend subroutine twice\nmodule holder\ncontains\n subroutine twice()\n end subroutine twice\nend module holder\n",
+     [("twice", 12, 0, 1, None), ("holder", 2, 2, 6, None), ("twice", 12, 4, 5, "holder")]),
+]
+
+
+def check_directed_outlines(ctx, srv, conn, root):
+    for k, (text, want) in enumerate(DIRECTED_OUTLINES):
+        path = os.path.join(root, "directed%d.f90" % k)
+        with open(path, "w") as f:
+            f.write(text)
+        impl.did_open(srv, path)
+        resp, _ = impl.request(srv, conn, "textDocument/documentSymbol", {"textDocument": {"uri": impl.uri(path)}})
+        got = [(s["name"], s["kind"], s["location"]["range"]["start"]["line"], s["location"]["range"]["end"]["line"], s.get("containerName")) for s in resp[2]] \
+            if resp and resp[0] == "r" and resp[2] is not None else None
+        ctx.count(("directed-outline", k), True)
+        if got is None or sorted(got, key=repr) != sorted(want, key=repr):
+            ctx.report("C04:outline", "the outline of a hand-written program differs from its block structure",
+                       {"kind": "counterexample", "input": {"text": text}, "implementation": got, "oracle": want})
+        impl.did_close(srv, path)
+        os.remove(path)
 
 
 def ws_rename_check(ctx, srv, conn, root):
